@@ -297,8 +297,8 @@ func main() {
 	samples.N = 6
 	var distinct common.Distinct
 	evals := 0
-	structures := r.Pick(2000, 200000)
-	attemptsPer := r.Pick(3000, 10000)
+	structures := r.Pick(2000, 60000)
+	attemptsPer := r.Pick(3000, 5000)
 	modeCount := map[string]int{}
 
 	report := func(w *witness) {
